@@ -6,6 +6,9 @@ CHECKERS = dict(C19_rt.CHECKERS)
 
 
 def run(ctx):
+    from vf.pyvc import crosscheck
+
+    crosscheck.guard(ctx)  # the concrete-shape tensor layer (used by the scalar / batch-1 contracts here) against real torch
     api.run_vcs(ctx, C19_vc.vcs(ctx), {
         "C19.P.srswor_cardinality": "fixed-cardinality sampling: loop invariant on the real sampler, symbolic vector size: exactly `given` ones, all below `total`; bernoulli probabilities in [0,1]",
         "C19.P.lb_threshold_csample": "LogisticBernoulli: threshold(csample(b)) = b for all probabilities, noise and b (sign axioms of log)"})
